@@ -103,7 +103,7 @@ def run(ck, rng, tier):
                 X[:, 0] = 99999999.05 + np.array(dev + [-d for d in dev])
             if hno == 1 and step == 0:
                 # the smallest model: one variable, one response, one latent variable (1 x 1 tables)
-                kind, mag, m = "pls", 1.0, 1
+                kind, mag, m, n = "pls", 1.0, 1, 6     # (6 objects: the first discriminant-analysis table stays empty while later ones are filled)
                 kinds_on[p] = kind
                 X = np.array([[rng.gauss(0, 1)] for _ in range(n)])
             if kind == "pca":
